@@ -15,9 +15,10 @@
      target_ok   the target is a fresh object of the same class: nothing present, no field, empty
                  pre-created groups (what create_group g true gives when g's static table has no
                  present bit);
-     groups      every non-empty group of the source belongs to a present group field, the target
-                 has the (empty) group and its nested class, and every element is src_ok against a
-                 fresh deep element of that class (recursively).
+     groups      the target has (empty) every group the source holds under a group tag ("a deep
+                 constructed target message is required"); every non-empty group of the source
+                 belongs to a present group field, the target knows its nested class, and every
+                 element is src_ok against a fresh deep element of that class (recursively).
    part_ok s t0  the same for a header / trailer, whose fresh target t0 already holds the
                  constructor's fields (8, 9, 35 / 10): those must be present in the source as well. *)
 From Coq Require Import NArith ZArith List Bool.
@@ -48,6 +49,7 @@ Fixpoint strictN (l : list N) : bool :=
   | x :: r => forallb (fun y => x <? y) r && strictN r
   end.
 Definition is_nil {A} (l : list A) : bool := match l with [] => true | _ => false end.
+Definition is_some {A} (o : option A) : bool := match o with Some _ => true | None => false end.
 
 (* FieldTraits::getPos(fnum) / get(fnum, present) / is_group(fnum) on a table *)
 Definition pos_of (fp : list trait) (f : N) : N :=
@@ -108,6 +110,7 @@ Fixpoint src_ok (s : mbase) {struct s} : mbase -> bool :=
     fun t0 =>
       local_ok s t0 && target_ok t0 &&
       forallb (fun g =>
+                 (negb (group_in fp (fst g)) || is_some (map_find (fst g) (mb_groups t0))) &&
                  match snd g with
                  | [] => true
                  | oks =>
@@ -137,6 +140,7 @@ Definition part_target_ok (s t0 : mbase) : bool :=
 Definition part_ok (s t0 : mbase) : bool :=
   local_ok s t0 && part_target_ok s t0 &&
   forallb (fun g =>
+             (negb (group_in (mb_fp s) (fst g)) || is_some (map_find (fst g) (mb_groups t0))) &&
              match snd g with
              | [] => true
              | els =>
@@ -148,12 +152,11 @@ Definition part_ok (s t0 : mbase) : bool :=
              end) (mb_groups s).
 
 (* ------------------------------------------------------------------ a whole message *)
-(* never encoded (C02 finding F05: a second encode emits 8, 9, 10 twice) *)
-Definition fresh_msg (m : message) : bool :=
-  suppress_in (mb_fp (m_hdr m)) 8 && suppress_in (mb_fp (m_hdr m)) 9 && suppress_in (mb_fp (m_trl m)) 10.
-(* the constructor-owned fields of the fresh target: all suppressed or MsgType; BeginString as built *)
-Definition owned_ok (s t0 : mbase) : bool :=
-  forallb (fun e => suppress_in (mb_fp s) (e_fnum e) || (e_fnum e =? Common_MsgType)) (mb_pos t0).
+(* the constructor-owned fields of the fresh target (8, 9, 35 / 10) are still suppressed in the source,
+   i.e. the source has never been encoded (C02 finding F05: Message::encode clears the suppress bits for
+   good) -- except MsgType in the header, which is not suppressed but overwritten by encode *)
+Definition owned_ok (allow_msgtype : bool) (s t0 : mbase) : bool :=
+  forallb (fun e => suppress_in (mb_fp s) (e_fnum e) || (allow_msgtype && (e_fnum e =? Common_MsgType))) (mb_pos t0).
 Definition same_field (f : N) (a b : mbase) : bool :=
   match map_find f (mb_fields a), map_find f (mb_fields b) with
   | Some v, Some w => list_eqb v w
@@ -165,9 +168,8 @@ Definition clone_ok (c : ctx) (md : msgdef) (m : message) : bool :=
   let t := mk_message c md true in
   src_ok (m_body m) (m_body t) &&
   part_ok (m_hdr m) (m_hdr t) && part_ok (m_trl m) (m_trl t) &&
-  owned_ok (m_hdr m) (m_hdr t) && owned_ok (m_trl m) (m_trl t) &&
+  owned_ok true (m_hdr m) (m_hdr t) && owned_ok false (m_trl m) (m_trl t) &&
   same_field Common_BeginString (m_hdr m) (m_hdr t) &&
-  fresh_msg m &&
   list_eqb (m_type m) (md_type md).
 
 (* ------------------------------------------------------------------ the observed object of a model object *)
